@@ -279,7 +279,7 @@ void linear_case(vt::Rng& rng, int64_t icase)
 {
     auto       p     = make_problem(rng, false, rng.coin());
     const auto loss  = loss_t::all().get(rng.pick(std::vector<std::string>{"mse", "mae", "cauchy"}));
-    const auto id    = rng.pick(std::vector<std::string>{"ordinary", "ridge", "lasso", "elasticnet"});
+    const auto id    = rng.pick(std::vector<std::string>{"ordinary", "ridge", "lasso", "elastic_net"});
     auto       model = linear_t::all().get(id);
     if (model == nullptr)
     {
